@@ -1350,7 +1350,7 @@ class TcpServerStack(RemoteStack, IpStack):
                 continue
 
             if ca not in self.haRemotes:
-                remote = IpRemoteDevice(stack=self, ha=ca)
+                remote = devicing.IpRemoteDevice(stack=self, ha=ca)
                 self.addRemote(remote)
 
             if ix.timeout > 0.0 and ix.timer.expired:
